@@ -74,6 +74,31 @@ theorem selectLowest_spec (order : List Nat) (pool : List (List α)) (preds : Li
     simp only [List.getElem_take, List.getElem_drop] at hpi hpj
     exact hsorted a (k + b) (by omega) (by omega) pi pj hpi hpj
 
+/-- **parent of a best-batch proposal.**  For every history of at least `batch_size` points, every admissible
+`argsort` of its losses and every drawn position `j < batch_size`: the parent is the history row at the `j`-th index of
+the order, and its loss is ≤ the loss of every point outside the `batch_size` selected ones — it is one of the
+`batch_size` lowest-loss points, however ties are broken. -/
+theorem bestBatch_parent_among_lowest (order : List Nat) (hist : List (List α)) (losses : List β) (bs j : Nat)
+    (h : IsArgsort order losses) (hlen : hist.length = losses.length) (hj : j < bs) (hb : bs ≤ hist.length) :
+    ∃ i row, (order.take bs)[j]? = some i ∧ hist[i]? = some row ∧ bestBatchParent order hist bs j = some row ∧
+      ∀ i' ∈ order.drop bs, ∀ pi pj, losses[i]? = some pi → losses[i']? = some pj → pi ≤ pj := by
+  obtain ⟨_, hmap, _, hval, hlow⟩ := selectLowest_spec order hist losses bs h hlen
+  have holen : order.length = hist.length := by rw [h.1.length_eq, hlen]; simp
+  have hjt : j < (order.take bs).length := by simp [List.length_take]; omega
+  refine ⟨(order.take bs)[j], hist[(order.take bs)[j]]'(hval _ (List.getElem_mem hjt)), List.getElem?_eq_getElem hjt,
+    List.getElem?_eq_getElem _, ?_, ?_⟩
+  · have := congrArg (fun l => l[j]?) hmap
+    simp only [List.getElem?_map, List.getElem?_eq_getElem hjt, Option.map_some] at this
+    unfold bestBatchParent
+    cases hs : (selectLowest order hist bs)[j]? with
+    | none => rw [hs] at this; simp at this
+    | some x =>
+      rw [hs] at this
+      simp only [Option.map_some, Option.some.injEq] at this
+      rw [this, List.getElem?_eq_getElem (hval _ (List.getElem_mem hjt))]
+  · intro i' hi' pi pj hpi hpj
+    exact hlow _ (List.getElem_mem hjt) i' hi' pi pj hpi hpj
+
 end Select
 
 /-! ## best-batch -/
